@@ -202,6 +202,7 @@ def _header(nonce):
 
 _HDR_BY_HASH = {}
 _HDR_BY_SER = {}      # serialized header -> BlockHeader (cb.key)
+_POW_CASES = {}       # op line -> the BlockHeader asked about (pow.valid)
 _BLK_CASES = {}       # op line -> the Block the implementation side is asked about (blk.root / blk.wc)
 _REAL_BLOCKS = {}     # block hash -> parsed block of the BIP158 vector file
 
@@ -412,6 +413,17 @@ def impl(line: str) -> str:
                 m = str(e)
                 return "err " + (c if c != "value" else "unexpected" if "unexpected witness" in m else "nonce"
                                  if "invalid witness nonce" in m else "commitment" if "commitment" in m else "other:" + m[:40])
+            return "ok"
+        if op == "pow.valid":
+            hdr = _POW_CASES[line]
+            try:
+                hdr.assert_valid_pow(unhx(t[2]))
+            except Exception as e:  # noqa: BLE001
+                c = common.err_class(e)
+                m = str(e)
+                return "err " + (c if c != "value" else "negative" if "negative proof-of-work" in m else "zero"
+                                 if "zero proof-of-work" in m else "above" if "above the limit" in m else "overflow"
+                                 if "overflows" in m else "work" if "invalid proof-of-work: " in m else "other:" + m[:40])
             return "ok"
         if op == "pow.chainwork":
             return common.call_impl(pw.chain_work, [unhx(x) for x in _uncsv(t[1])])
@@ -950,6 +962,31 @@ def run(ctx):
         lim = rng.choice([0x1D00FFFF, 0x1D00FFFF, 0x207FFFFF, 0x1E0377AE, rand_bits(rng)])
         lines.append(f"core.next {nb} {ts} {lim}")
     ctx.stream("pow.next", lines)
+    # BlockHeader.assert_valid_pow over headers with chosen bits (hash = whatever the header hashes to)
+    pv = []
+    for _ in range(ctx.n(1200, 30000)):
+        r = rng.random()
+        if r < 0.45:
+            nb = (rng.choice([0x20, 0x20, 0x1F, 0x21]) << 24) | rng.choice([0x7FFFFF, 0x7FFFFF, 0x00FFFF, rng.getrandbits(23)])
+        elif r < 0.6:
+            nb = (rng.choice([0x20, 0x1F]) << 24) | 0x800000 | rng.getrandbits(23)        # sign bit
+        elif r < 0.7:
+            nb = (rng.randrange(0, 0x23) << 24) | rng.choice([0, 0, 0x800000, rng.getrandbits(8)])   # zero / tiny targets
+        else:
+            nb = rand_bits(rng)
+        lim = rng.choice([0x207FFFFF, 0x207FFFFF, 0x1D00FFFF, 0x1E0377AE, rand_bits(rng)])
+        hdr = _header(rng.getrandbits(32))
+        hdr.bits = nb.to_bytes(4, "big")
+        if rng.random() < 0.5:                                   # look a little for a solving nonce
+            tgt = core_set_compact(nb)[0]
+            for k in range(6):
+                if int.from_bytes(hdr.hash, "big") <= tgt:
+                    break
+                hdr.nonce = rng.getrandbits(32)
+        line = f"pow.valid {hx(hdr.bits)} {hx(lim.to_bytes(4, 'big'))} {hx(hdr.hash)}"
+        _POW_CASES[line] = hdr
+        pv.append(line)
+    ctx.stream("pow.valid", pv, nontrivial=lambda ln, out: out == "ok" or out.endswith("work") or out.endswith("above"))
     for n in grid + rnd[: ctx.n(1500, 50000)]:
         w = {"bits": n, "timespan": rng.choice(spans + [rng.randrange(0, 5 * T)]),
              "limit": rng.choice([0x1D00FFFF, 0x207FFFFF])}
